@@ -102,6 +102,8 @@ type Case struct {
 	DT      string      `json:"dt,omitempty"` // group single proto bogus
 	TS      bool        `json:"with_ts,omitempty"`
 	NoEvent bool        `json:"no_event_driven,omitempty"` // ingest: cache.DisableEventDrivenEmulation()
+	SrvName bool        `json:"server_name,omitempty"`     // ingest: cache.WithServerName("srv")
+	Latency bool        `json:"latency,omitempty"`         // ingest: cache.WithLatencyWindows(["10ns"], 1ns)
 	Ops     []Op        `json:"ops"`
 	Obs     interface{} `json:"obs,omitempty"`
 }
